@@ -38,7 +38,19 @@ fn run_query(db: &RootDatabase, main: &[CrateInput], q: &Value) {
             if slot < main_ids.len() && (slot == 0 || main_ids.len() > 1) {
                 let _ = get_diagnostics_as_string(db, Some(vec![main_ids[slot]]));
             } else {
-                // single-crate project: "another crate" is a module of the core library
+                // single-crate project: one submodule of the crate on its own (the second by name), ...
+                if let Some(c) = main_ids.first() {
+                    let root = cairo_lang_defs::ids::ModuleId::CrateRoot(*c);
+                    if let Ok(subs) = db.module_submodules_ids(root) {
+                        use cairo_lang_defs::ids::NamedLanguageElementId;
+                        let mut subs: Vec<_> = subs.iter().copied().collect();
+                        subs.sort_by_key(|m| m.name(db).long(db).to_string());
+                        if let Some(m) = subs.get(1) {
+                            let _ = db.module_semantic_diagnostics(cairo_lang_defs::ids::ModuleId::Submodule(*m));
+                        }
+                    }
+                }
+                // ... and "another crate": a module of the core library
                 let core = CrateId::core(db);
                 for m in db.crate_modules(core).iter() {
                     if m.full_path(db) == "core::option" {
